@@ -1,4 +1,4 @@
-import Fzf.Model.Exact
+import Fzf.Model.Algo
 import Fzf.Lemmas.Algo
 import Fzf.Lemmas.Score
 import Fzf.Lemmas.Prefilter
@@ -233,9 +233,9 @@ theorem exRange_occ (cfg : Cfg) (cs norm fwd : Bool) (t p : Text) (b : Nat)
 /-- **ExactMatchNaive / ExactMatchBoundary return for every input** — the scanning loop with its
     backing up after a partial match, the neighbour look-ups of the boundary variant and the
     scoring never index outside the text or the term. -/
-theorem exactNaive_total (cfg : Cfg) (cs norm fwd boundary : Bool) (t : Text) (isBytes : Bool) (p : Text) :
-    ∃ r, exactNaive cfg cs norm fwd boundary t isBytes p = .ok r := by
-  unfold exactNaive
+theorem exactMatchNaive_total (cfg : Cfg) (cs norm fwd boundary : Bool) (t : Text) (isBytes : Bool) (p : Text) :
+    ∃ r, exactMatchNaive cfg cs norm fwd boundary t isBytes p = .ok r := by
+  unfold exactMatchNaive
   by_cases h0 : (p.size == 0) = true
   · rw [if_pos h0]; exact ⟨_, rfl⟩
   · rw [if_neg h0]
@@ -271,11 +271,11 @@ theorem exactNaive_total (cfg : Cfg) (cs norm fwd boundary : Bool) (t : Text) (i
     reported range has the length of the term, lies inside the line, and carries the term
     character by character (after case folding / normalisation of the line) — searching forward
     or backward. -/
-theorem exactNaive_sound (cfg : Cfg) (cs norm fwd boundary : Bool) (t : Text) (isBytes : Bool) (p : Text)
-    (hm : 0 < p.size) (r : Res) (hr : exactNaive cfg cs norm fwd boundary t isBytes p = .ok r) (hs : 0 ≤ r.start) :
+theorem exactMatchNaive_sound (cfg : Cfg) (cs norm fwd boundary : Bool) (t : Text) (isBytes : Bool) (p : Text)
+    (hm : 0 < p.size) (r : Res) (hr : exactMatchNaive cfg cs norm fwd boundary t isBytes p = .ok r) (hs : 0 ≤ r.start) :
     r.stop = r.start + p.size ∧ r.stop ≤ t.size ∧
     ∀ i, i < p.size → foldRune cfg cs norm (t.getD (r.start.toNat + i) 0) = p.getD i 0 := by
-  unfold exactNaive at hr
+  unfold exactMatchNaive at hr
   have h0 : ¬ (p.size == 0) = true := by
     have : p.size ≠ 0 := by omega
     simpa using this
@@ -551,13 +551,13 @@ theorem occ_sublist (f : Nat → Nat) (t p : Text) (s : Nat) (hfit : s + p.size 
 /-- **ExactMatchNaive never misses an occurrence.** In fzf's three schemes, searching forward or
     backward: when it reports no match, the term occurs nowhere in the (case-folded, normalised)
     line. `isBytes` = the text is all ASCII (what the ASCII pre-filter relies on). -/
-theorem exactNaive_complete (cfg : Cfg) (hs : RealScheme cfg) (hnorm : ∀ c, c < 128 → cfg.norm c = c)
+theorem exactMatchNaive_complete (cfg : Cfg) (hs : RealScheme cfg) (hnorm : ∀ c, c < 128 → cfg.norm c = c)
     (cs norm fwd : Bool) (t : Text) (isBytes : Bool) (p : Text)
     (hascii : isBytes = true → ∀ c ∈ t.toList, c < 128) (hm : 0 < p.size) (r : Res)
-    (hr : exactNaive cfg cs norm fwd false t isBytes p = .ok r) (hneg : r.start < 0) :
+    (hr : exactMatchNaive cfg cs norm fwd false t isBytes p = .ok r) (hneg : r.start < 0) :
     ¬ ∃ s, s + p.size ≤ t.size ∧ ∀ i, i < p.size → foldRune cfg cs norm (t.getD (s + i) 0) = p.getD i 0 := by
   rintro ⟨s, hfit, hocc⟩
-  unfold exactNaive at hr
+  unfold exactMatchNaive at hr
   have h0 : ¬ (p.size == 0) = true := by
     have : p.size ≠ 0 := by omega
     simpa using this
